@@ -44,6 +44,25 @@ def _one(xs, what):
     return xs[0]
 
 
+_MISSING = object()
+
+
+def _value(node, module):
+    """the Python value a node denotes when it is a literal (numbers, strings, lists / tuples / sets of them) or
+    a name bound at module level (a hoisted constant); _MISSING otherwise"""
+    try:
+        return ast.literal_eval(node)
+    except Exception:
+        pass
+    if isinstance(node, ast.Name) and hasattr(module, node.id):
+        return getattr(module, node.id)
+    if isinstance(node, ast.Attribute) and isinstance(node.value, ast.Name):
+        base = getattr(module, node.value.id, _MISSING)
+        if base is not _MISSING and hasattr(base, node.attr):
+            return getattr(base, node.attr)
+    return _MISSING
+
+
 def _iter_rows(f, module):
     """the rows a `for` loop runs over, when they are written as a literal list of tuples in place or bound to a
     module-level name (a hoisted table): list of tuples of Python values (types stay types), else None"""
@@ -79,14 +98,19 @@ def gen_edstables():
     # ---- import_eds ---------------------------------------------------------------------------
     t = _tree(eds.import_eds)
     fors = [n for n in ast.walk(t) if isinstance(n, ast.For)]
-    rates = _one([f for f in fors if isinstance(f.iter, ast.List) and f.iter.elts
-                  and all(isinstance(e, ast.Constant) for e in f.iter.elts)], "baud rate list")
-    out += f"\ndef BAUD_RATES : List Nat := {lnatlist([_const(e, int) for e in rates.iter.elts])}\n"
+    def int_list(node):
+        v = _value(node, eds)
+        return list(v) if isinstance(v, (list, tuple)) and v and all(isinstance(x, int) and not isinstance(x, bool) for x in v) else None
+    rates = _one([f for f in fors if int_list(f.iter)], "baud rate list")
+    out += f"\ndef BAUD_RATES : List Nat := {lnatlist(int_list(rates.iter))}\n"
     # the body must be: baudPossible = int(eds.get("DeviceInfo", f"BaudRate_{rate}", fallback='0'), 0);
     # if baudPossible != 0: allowed_baudrates.add(rate*1000)
     mults = [n for n in ast.walk(rates) if isinstance(n, ast.BinOp) and isinstance(n.op, ast.Mult)]
     m = _one(mults, "rate multiplier")
-    out += f"def BAUD_UNIT : Nat := {lnat(_const(m.right, int))}\n"
+    unit = _value(m.right, eds)
+    if not isinstance(unit, int):
+        raise TranslatorError("rate multiplier is not an integer constant")
+    out += f"def BAUD_UNIT : Nat := {lnat(unit)}\n"
     cands = [r for r in (_iter_rows(f, eds) for f in fors)
              if r and all(len(x) == 3 and x[0] in (str, int, bool) and isinstance(x[1], str) and isinstance(x[2], str)
                           for x in r)]
@@ -97,9 +121,9 @@ def gen_edstables():
             "def DEVINFO_IMPORT : List (Nat × List Char × List Char) := [\n" + ",\n".join(rows) + "]\n")
     rng = [n for n in ast.walk(t) if isinstance(n, ast.Call) and isinstance(n.func, ast.Name)
            and n.func.id == "range" and len(n.args) == 2
-           and all(isinstance(a, ast.Constant) for a in n.args)]
+           and all(isinstance(_value(a, eds), int) for a in n.args)]
     r = _one(rng, "dummy range")
-    out += f"\ndef DUMMY_LO : Nat := {lnat(_const(r.args[0], int))}\ndef DUMMY_HI : Nat := {lnat(_const(r.args[1], int))}\n"
+    out += f"\ndef DUMMY_LO : Nat := {lnat(_value(r.args[0], eds))}\ndef DUMMY_HI : Nat := {lnat(_value(r.args[1], eds))}\n"
 
     # ---- build_variable: threshold of the "custom data type" branch ------------------------------
     t = _tree(eds.build_variable)
@@ -107,7 +131,10 @@ def gen_edstables():
             and isinstance(n.ops[0], ast.Gt) and isinstance(n.left, ast.Attribute)
             and n.left.attr == "data_type"]
     c = _one(cmps, "data_type threshold")
-    out += f"\ndef CUSTOM_TYPE_ABOVE : Nat := {lnat(_const(c.comparators[0], int))}\n"
+    thr = _value(c.comparators[0], eds)
+    if not isinstance(thr, int):
+        raise TranslatorError("data_type threshold is not an integer constant")
+    out += f"\ndef CUSTOM_TYPE_ABOVE : Nat := {lnat(thr)}\n"
 
     # ---- _calc_bit_length: read off by calling it on every data type code (whatever its shape) -----------
     rows = []
@@ -140,28 +167,37 @@ def gen_edstables():
     rows = [f"  ({lcl(a)}, {lcl(b)})" for a, b in exp_rows]
     out += ("\n/-- (EDS key, attribute) -/\ndef DEVINFO_EXPORT : List (List Char × List Char) := [\n"
             + ",\n".join(rows) + "]\n")
-    sets = [n for n in ast.walk(t) if isinstance(n, ast.Set)]
-    fl = [s for s in sets if all(isinstance(e, ast.Constant) and isinstance(e.value, float) for e in s.elts)]
-    s = _one(fl, "export baud-rate set")
+    # sets written in place, or names bound to sets / frozensets at module level (hoisted constants)
+    cand = []
+    for n in ast.walk(t):
+        if isinstance(n, (ast.Set, ast.Name)):
+            v = _value(n, eds)
+            if isinstance(v, (set, frozenset)) and v:
+                order = [_value(e, eds) for e in n.elts] if isinstance(n, ast.Set) else sorted(v)
+                if order not in cand:
+                    cand.append(order)
+    fl = [v for v in cand if all(isinstance(x, float) for x in v)]
     vals = []
-    for e in s.elts:
-        if e.value != int(e.value):
+    for x in _one(fl, "export baud-rate set"):
+        if x != int(x):
             raise TranslatorError("fractional baud rate")
-        vals.append(int(e.value))
+        vals.append(int(x))
     out += f"\ndef EXPORT_BAUDS : List Nat := {lnatlist(vals)}\n"
-    il = [s for s in sets if all(isinstance(e, ast.Constant) and isinstance(e.value, int) for e in s.elts)]
-    s = _one(il, "mandatory index set")
-    out += f"def MANDATORY : List Nat := {lnatlist([e.value for e in s.elts])}\n"
+    il = [v for v in cand if all(isinstance(x, int) and not isinstance(x, bool) for x in v)]
+    out += f"def MANDATORY : List Nat := {lnatlist(list(_one(il, 'mandatory index set')))}\n"
     rng = [n for n in ast.walk(t) if isinstance(n, ast.Call) and isinstance(n.func, ast.Name)
            and n.func.id == "range" and len(n.args) == 2
-           and all(isinstance(a, ast.Constant) for a in n.args) and n.args[0].value >= 0x1000]
+           and all(isinstance(_value(a, eds), int) for a in n.args) and _value(n.args[0], eds) >= 0x1000]
     r = _one(rng, "manufacturer range")
-    out += (f"def MANUFACTURER_LO : Nat := {lnat(r.args[0].value)}\n"
-            f"def MANUFACTURER_HI : Nat := {lnat(r.args[1].value)}\n")
+    out += (f"def MANUFACTURER_LO : Nat := {lnat(_value(r.args[0], eds))}\n"
+            f"def MANUFACTURER_HI : Nat := {lnat(_value(r.args[1], eds))}\n")
     gts = [n for n in ast.walk(t) if isinstance(n, ast.Compare) and len(n.ops) == 1
            and isinstance(n.ops[0], ast.Gt) and isinstance(n.left, ast.Name) and n.left.id == "x"]
     g = _one(gts, "optional lower bound")
-    out += f"def OPTIONAL_ABOVE : Nat := {lnat(_const(g.comparators[0], int))}\n"
+    ab = _value(g.comparators[0], eds)
+    if not isinstance(ab, int):
+        raise TranslatorError("optional lower bound is not an integer constant")
+    out += f"def OPTIONAL_ABOVE : Nat := {lnat(ab)}\n"
 
     # ---- ODArray.__getitem__ -------------------------------------------------------------------------
     t = _tree(odm.ODArray.__getitem__)
